@@ -70,3 +70,49 @@ def B58DecCheck(inp, tab, ev):
         tab.hash256(body)
     ok, v = call(helper.decode_base58_checksum, s)
     ev["res"] = res_of(ok, v, B)
+
+
+# ---------------------------------------------------------------- C19 wire
+def cmds_to_py(cmds):
+    return [c["op"] if "op" in c else bytes(c["d"]) for c in cmds]
+
+
+def cmds_to_json(cmds):
+    return [{"op": c} if isinstance(c, int) else {"d": B(c)} for c in cmds]
+
+
+def le_trim(n):
+    return B(n.to_bytes((n.bit_length() + 7) // 8, "little"))
+
+
+@act
+def ScriptSer(inp, tab, ev):
+    from btc_hd_wallet.script import Script
+    sc = Script(cmds_to_py(inp["cmds"]))
+    ok, v = call(sc.raw_serialize if inp["raw"] else sc.serialize)
+    ev["res"] = res_of(ok, v, B)
+
+
+@act
+def ScriptParse(inp, tab, ev):
+    from io import BytesIO
+    from btc_hd_wallet.script import Script
+    s = BytesIO(bytes(inp))
+    ok, v = call(Script.parse, s)
+    ev["res"] = res_of(ok, v, lambda sc: {"cmds": cmds_to_json(sc.cmds), "used": s.tell()})
+
+
+@act
+def VarintEnc(inp, tab, ev):
+    from btc_hd_wallet import helper
+    ok, v = call(helper.encode_varint, int.from_bytes(bytes(inp), "little"))
+    ev["res"] = res_of(ok, v, B)
+
+
+@act
+def VarintRead(inp, tab, ev):
+    from io import BytesIO
+    from btc_hd_wallet import helper
+    s = BytesIO(bytes(inp))
+    ok, v = call(helper.read_varint, s)
+    ev["res"] = res_of(ok, v, lambda n: {"val": le_trim(n), "used": s.tell()})
